@@ -1,0 +1,30 @@
+//go:build verif
+
+// Machine-checked contracts for this package (comment-only; compiled only with -tags verif,
+// and even then contributes no code).  Read by /verif/govc; see /verif/DESIGN.md.
+
+package consistenthash
+
+//@ ghost chSum []byte
+
+//@ -- The hash of a backend name is the FIRST FOUR DIGEST BYTES READ LITTLE-ENDIAN, whatever the host byte
+//@ -- order: every node must derive the same offset/skip (and hence the same lookup table) for a backend.
+//@ func hashFromString
+//@   property C33
+//@   option safety off
+//@   ghost at call Sum: chSum = res
+//@   ensures err == nil ==> res0 == int(le32of(chSum)) && 0 <= res0 && res0 <= 0xffffffff
+//@   assigns chSum
+
+//@ func reinitHash
+//@   property C33
+//@   option safety off
+//@   assigns nothing
+
+//@ -- offset in [0, m), skip in [1, m-1]
+//@ func (*ConsistentHash).offsetAndSKip
+//@   property C33
+//@   requires ch != nil && ch.m >= 2 && ch.m <= 65521
+//@   option safety off
+//@   ensures res2 == nil ==> 0 <= res0 && res0 < ch.m && 1 <= res1 && res1 <= ch.m - 1
+//@   ensures ch.m == old(ch.m)
